@@ -20,6 +20,10 @@ def run(ctx):
     ctx.rule("R12-3", "a pass that removes / inserts tokens walks its edit list in descending index order (.rev())")
     ctx.rule("R12-5", "a word never vanishes: on every path on which expand_glob records a replacement list for a token, "
                       "the list holds at least one word (the matches, or the pattern itself)")
+    ctx.rule("R12-6", "{a..b[..s]} counts from a to b inclusive in the right direction: expand_brace_range has an ascending "
+                      "loop (guard n <= end, step checked_add) and a descending one (guard n >= end, step checked_sub), "
+                      "selected by start > end; each pushes format(n) before stepping; n starts at capture 1, end is "
+                      "capture 2")
     ctx.rule("R12-4", "the home directory is not interpreted as a regex replacement template")
     for crate in ctx.crates:
         res = etag.run_sites(ctx, "R12-1", crate, fn_filter=lambda p: p in PASSES)
@@ -34,6 +38,7 @@ def run(ctx):
             order_rule(ctx, crate, b)
         home_rule(ctx, crate)
         nonempty_rule(ctx, crate)
+        range_rule(ctx, crate)
 
 
 def tag_rule(ctx, crate, b):
@@ -175,3 +180,103 @@ def nonempty_rule(ctx, crate):
            key="R12-5|%s|nonempty" % b.path, where=b.loc(recbb), crate=crate.kind,
            detail=None if not bad else "a path records an empty list: the word disappears from the command line "
                                        "(e.g. a pattern matching only hidden files)")
+
+
+def _cap_index(b, e):
+    """k if the expression is parsed from capture group k of the pass's regex"""
+    for sub in mir.subexprs(b.expand_vars(strip_sites(e))):
+        if sub[0] == "call" and last_seg(sub[1]) == "index" and "Captures" in sub[1] and len(sub[2]) == 2:
+            k = mir.const_int(sub[2][1])
+            if k is not None:
+                return k
+    return None
+
+
+def range_rule(ctx, crate):
+    b = crate.fn("shell::expand_brace_range")
+    if not ctx.require(b is not None, "R12-6", "R12-6|anchor", "shell::expand_brace_range not found"):
+        return
+    loops = []
+    for h, blocks in b.loops().items():
+        for tgt, atom, val in b.switch_edges(h):
+            a = strip_sites(atom)
+            if not (a[0] == "bin" and a[1] in ("Le", "Ge", "Lt", "Gt") and val in (True, False) and tgt in blocks):
+                continue
+            exits = [t2 for t2, a2, v2 in b.switch_edges(h) if t2 not in blocks]
+            if not exits:
+                continue
+            n, bound, op = a[2], a[3], a[1]
+            if val is False:        # `if n > end { break }`: staying in the loop means the negation
+                op = {"Le": "Gt", "Gt": "Le", "Ge": "Lt", "Lt": "Ge"}[op]
+            if n[0] != "var":
+                if bound[0] == "var":
+                    n, bound = bound, n
+                    op = {"Le": "Ge", "Ge": "Le", "Lt": "Gt", "Gt": "Lt"}[op]
+                else:
+                    continue
+            if "i32" not in b.locals[n[1]]["ty"] and "i64" not in b.locals[n[1]]["ty"]:
+                continue
+            loops.append((h, blocks, n, bound, op))
+    asc = [l for l in loops if l[4] in ("Le", "Lt")]
+    desc = [l for l in loops if l[4] in ("Ge", "Gt")]
+    if not ctx.require(len(asc) == 1 and len(desc) == 1, "R12-6", "R12-6|%s|loops" % b.path,
+                       "expected one ascending and one descending counting loop (while n <= end / while n >= end), "
+                       "found %d / %d" % (len(asc), len(desc)), b.path):
+        return
+    ctx.analysed(b)
+    sel = None
+    for (h, blocks, n, bound, op), name, incl, stepfn in ((asc[0], "ascending", "Le", ("checked_add", "Add")),
+                                                          (desc[0], "descending", "Ge", ("checked_sub", "Sub"))):
+        ctx.ob("R12-6", b.path, "%s loop includes the end value (guard %s)" % (name, incl), op == incl,
+               key="R12-6|%s|%s|inclusive" % (b.path, name), where=b.loc(h), crate=crate.kind,
+               detail=None if op == incl else "{1..3} would stop before 3" if name == "ascending" else "{3..1} would stop before 1")
+        # the step: every in-loop assignment to n derives from checked_add/sub(n, incr) (or n + incr)
+        steps, good = [], True
+        for bi, si in b.defs.get(n[1], []):
+            if bi not in blocks:
+                continue
+            e = b.expand_vars(strip_sites(b.def_expr(bi, si)))
+            found = False
+            for sub in mir.subexprs(e):
+                if sub[0] == "call" and last_seg(sub[1]) == stepfn[0] and strip_sites(sub[2][0]) == n:
+                    found = True
+                    steps.append(bi)
+                if sub[0] == "bin" and sub[1] == stepfn[1] and sub[2] == n:
+                    found = True
+                    steps.append(bi)
+            good = good and found
+        ctx.ob("R12-6", b.path, "%s loop steps n by %s(n, incr) and nothing else" % (name, stepfn[0]), bool(steps) and good,
+               key="R12-6|%s|%s|step" % (b.path, name), where=b.loc(h), crate=crate.kind)
+        # push(format(n)) on every path from the guard to the step
+        pushes = set()
+        for bb, t, c in b.calls():
+            if bb in blocks and last_seg(c) == "push" and "Vec" in c:
+                arg = b.expand_vars(strip_sites(b.call_args(bb)[1]))
+                if any(sub == n for sub in mir.subexprs(arg)):
+                    pushes.add(bb)
+        body_entry = [tgt for tgt, atom, val in b.switch_edges(h) if tgt in blocks]
+        ok = bool(pushes) and bool(steps) and bool(body_entry) and \
+            flow.must_pass(b, body_entry[0], pushes, set(steps) | {h}, within=blocks)
+        ctx.ob("R12-6", b.path, "%s loop pushes the current n before stepping, on every iteration" % name, ok,
+               key="R12-6|%s|%s|push" % (b.path, name), where=b.loc(h), crate=crate.kind)
+        # start / end
+        init = [b.def_expr(bi, si) for bi, si in b.defs.get(n[1], []) if bi not in blocks and not any(
+            bi in l[1] for l in loops)]
+        k0 = {_cap_index(b, e) for e in init}
+        k1 = _cap_index(b, bound)
+        ctx.ob("R12-6", b.path, "%s loop: n starts at capture 1 and runs to capture 2" % name, k0 == {1} and k1 == 2,
+               key="R12-6|%s|%s|ends" % (b.path, name), where=b.loc(h), crate=crate.kind,
+               detail="start from capture %s, bound from capture %s" % (sorted(k0, key=str), k1))
+        # selection: which edge of (start > end) leads here
+        facts = dom_facts(b, h)
+        dirs = [(a, v) for a, v in facts if a[0] == "bin" and a[1] in ("Gt", "Ge", "Lt", "Le")
+                and _cap_index(b, a[2]) in (1, 2) and _cap_index(b, a[3]) in (1, 2)]
+        okd = False
+        for a, v in dirs:
+            l, r, o = _cap_index(b, a[2]), _cap_index(b, a[3]), a[1]
+            if l == 2 and r == 1:
+                o = {"Gt": "Lt", "Ge": "Le", "Lt": "Gt", "Le": "Ge"}[o]
+            start_greater = (o in ("Gt", "Ge")) == bool(v)
+            okd = start_greater == (name == "descending")
+        ctx.ob("R12-6", b.path, "%s loop runs exactly when start %s end" % (name, ">" if name == "descending" else "<="),
+               okd, key="R12-6|%s|%s|selected" % (b.path, name), where=b.loc(h), crate=crate.kind)
